@@ -213,7 +213,9 @@ func CheckOrderingLossy(c *Ctx, clients []*TClient, lossy map[*TClient]bool) {
 				}
 			case *wamp.Result:
 				if p, _ := x.Details["progress"].(bool); p {
-					if strict && finalSeen[x.Request] {
+					// (not for a progressive call invocation: a chunk handed over before its caller could
+					// see that the call had ended is a call of its own for the router, answered as such)
+					if strict && finalSeen[x.Request] && len(cl.ChunkAt[x.Request]) < 2 {
 						c.Violf("%s: progressive RESULT for request %d after its final reply", cl.Name, x.Request)
 					}
 					if n, ok := argInt(x.Arguments, 1); ok {
